@@ -286,9 +286,26 @@ func (s *keystore) persistSize() error {
 	return s.ds.Put(context.Background(), sizeKey, sizeBytes)
 }
 
+// dedupMultihashes returns keys without duplicates, preserving order. Callers
+// cannot rely on a map keyed by bit256.Key to detect duplicates: bit256.Key
+// wraps a pointer, so two keys with the same bits never compare equal.
+func dedupMultihashes(keys []mh.Multihash) []mh.Multihash {
+	seen := make(map[string]struct{}, len(keys))
+	out := make([]mh.Multihash, 0, len(keys))
+	for _, h := range keys {
+		if _, ok := seen[string(h)]; ok {
+			continue
+		}
+		seen[string(h)] = struct{}{}
+		out = append(out, h)
+	}
+	return out
+}
+
 // put stores the provided keys and returns the keys that weren't present
 // already in the keystore.
 func (s *keystore) put(ctx context.Context, keys []mh.Multihash) ([]mh.Multihash, error) {
+	keys = dedupMultihashes(keys)
 	seen := make(map[bit256.Key]struct{}, len(keys))
 	b, err := s.ds.Batch(ctx)
 	if err != nil {
@@ -465,6 +482,7 @@ func (s *keystore) empty(ctx context.Context, d ds.Batching) error {
 
 // delete removes the given keys from datastore.
 func (s *keystore) delete(ctx context.Context, keys []mh.Multihash) error {
+	keys = dedupMultihashes(keys)
 	b, err := s.ds.Batch(ctx)
 	if err != nil {
 		return err
